@@ -908,7 +908,29 @@ pub async fn receivership(w: &mut World, m: &mut Mon, r: &mut R, lev: &Lev, rece
         let ok = w.exec(m, &[i], &[&admin]).await.ok();
         m.r.count(if ok { "scen.receivership_over_reduce_only_collateral" } else { "scen.reduce_only_configure_rejected" });
     }
+    // in some rounds the collateral bank carries a collateral-value cap far below what is deposited:
+    // the cap discounts the collateral for new borrowing only - what a receiver seizes is measured
+    // at full value
+    let capped = r.gen_bool(0.3) && w.banks[lev.ca].venue.is_none();
+    let old_cap = w.bank(lev.ca).config.total_asset_value_init_limit;
+    if capped {
+        let g = w.accts[lev.acct].group;
+        let admin = clone_kp(&w.groups[g].admin);
+        let mut o = BankConfigOpt::default();
+        o.total_asset_value_init_limit = Some(pick(r, &[1u64, 10, 1000]));
+        let i = ix::configure_bank(w.groups[g].key, admin.pubkey(), w.banks[lev.ca].key, o);
+        let ok = w.exec(m, &[i], &[&admin]).await.ok();
+        m.r.count(if ok { "scen.receivership_over_capped_collateral" } else { "scen.cap_configure_rejected" });
+    }
     receivership_inner(w, m, r, lev, receiver_user).await;
+    if capped {
+        let g = w.accts[lev.acct].group;
+        let admin = clone_kp(&w.groups[g].admin);
+        let mut o = BankConfigOpt::default();
+        o.total_asset_value_init_limit = Some(old_cap);
+        let i = ix::configure_bank(w.groups[g].key, admin.pubkey(), w.banks[lev.ca].key, o);
+        let _ = w.exec(m, &[i], &[&admin]).await;
+    }
     if reduce_only {
         let g = w.accts[lev.acct].group;
         let admin = clone_kp(&w.groups[g].admin);
@@ -1143,6 +1165,13 @@ async fn drive_valuations(w: &mut World, m: &mut Mon, r: &mut R, lev: &Lev, lq: 
     let has_record = w.shadow.contains_key(&ix::liq_record_key(&w.accts[a].key));
     let ixs = receivership_ixs(w, a, &rk, Some((ca, 1, false)), Some((db, 2, false)), !has_record, &tas);
     let _ = w.probe(m, &ixs, &[&rk]).await;
+    // seizing without repaying anything (what a receiver would try when the collateral's price
+    // reads zero: the seized value counts as nothing)
+    for amt in [1u64, 1000] {
+        let ixs = receivership_ixs(w, a, &rk, Some((ca, amt, false)), None, !has_record, &tas);
+        let o = w.probe(m, &ixs, &[&rk]).await;
+        m.r.count(if o.ok() { "scen.seizure_without_repayment_accepted" } else { "scen.seizure_without_repayment_refused" });
+    }
 }
 
 /// Forced deleverage by the risk admin: bracket like a liquidation, with the group's daily
